@@ -22,7 +22,7 @@ from .world import FAMILY, LINK_CLASSES, Watchdog, World
 
 KNOWN_OPEN = set()
 BOOKKEEPING = ("_NodeMixin__parent", "_NodeMixin__children", "_LightNodeMixin__parent", "_LightNodeMixin__children")
-SLOT_ATTRS = ("name", "foo", "bar", "extra")
+SLOT_ATTRS = ("name", "foo", "bar", "extra", "label")
 
 MENUS = (
     ("HNode",),
@@ -37,6 +37,9 @@ MENUS = (
     ("HLight", "HLightDict"),
     ("HLight", "HLightSub"),
     ("HLightSub",),
+    ("HLight", "HLightStr"),
+    ("HMixSlot",),
+    ("HMixSlot", "HNode"),
     ("HNodeBag", "HNode"),
     ("HNodeEq",),
 )
@@ -66,7 +69,7 @@ def gen_cfg(rng, prop, tier):
     cfg["L"] = rng.randint(0, 10)
     cfg["L2"] = rng.randint(0, 4)
     cfg["L3"] = rng.randint(0, 4)
-    lo = 2 if cfg["family"] == "light" else 0
+    lo = 2 if cfg["family"] == "light" or "HMixSlot" in menu else 0  # Python itself cannot pickle __slots__ classes with protocols 0 and 1
     cfg["methods"] = ["pickle%d" % p for p in range(lo, pickle.HIGHEST_PROTOCOL + 1)] + ["deepcopy"]
     cfg["fresh"] = False
     # some nodes carry an immutable container holding another node and a list: the copy must reach the
@@ -381,6 +384,11 @@ def run(cfg, ops=None, rng=None):
     world, model = struct.build_world(cfg)
     targets = list(cfg["targets"])
     classes = list(cfg["classes"])
+    for i, nd in enumerate(world.nodes):
+        # ordinary user attributes with unlucky names (anytree once kept its link in `_parent`)
+        if i % 3 == 1 and hasattr(nd, "__dict__") and classes[i] not in LINK_CLASSES:
+            nd._parent = i
+            nd._children = [i]
     refs = list(cfg.get("refs") or [None] * len(classes))
     for i, j in enumerate(refs):
         if j is not None:
